@@ -138,7 +138,7 @@ struct Acc {
 // ---------------------------------------------------------------- Run
 class Run {
 public:
-    std::string id, tier = "quick", evidencePath, replayPath, verifDir;
+    std::string id, tier = "quick", evidencePath, replayPath, verifDir, buildDir, repoDir;
     long seed = 0;
     int workers = 16;
     double deadlineS = -1;           // wall-clock budget for enumeration
@@ -157,6 +157,10 @@ public:
         t0_ = now();
         const char* vd = getenv("VERIF_DIR");
         verifDir = vd ? vd : "/verif";
+        const char* bd = getenv("VERIF_BUILD");
+        buildDir = bd ? bd : verifDir + "/build";
+        const char* rd = getenv("VERIF_REPO");
+        repoDir = rd ? rd : "/repo";
         for (int i = 1; i < argc; ++i) {
             std::string a = argv[i];
             auto next = [&]() -> std::string { return i + 1 < argc ? argv[++i] : ""; };
@@ -244,7 +248,7 @@ public:
         std::vector<std::string> files;
         fflush(stdout); fflush(stderr);
         for (int k = 0; k < W; ++k) {
-            std::string f = verifDir + "/build/tmp/" + id + "." + section + "." + std::to_string(getpid()) + "." + std::to_string(k) + ".part";
+            std::string f = buildDir + "/tmp/" + id + "." + section + "." + std::to_string(getpid()) + "." + std::to_string(k) + ".part";
             files.push_back(f);
             pid_t p = fork();
             if (p < 0) { harnessError("fork failed"); break; }
@@ -320,7 +324,7 @@ public:
                     printf("KNOWN-FINDING: property=%s key=%s %s (occurrences this run: %lld)\n", id.c_str(), v.key.c_str(), it->second.c_str(), (long long)acc.violCountByKey[v.key]);
                 continue;
             }
-            std::string path = replayPath.empty() ? verifDir + "/replays/" + id + "-" + std::to_string(replayN++) + ".txt" : replayPath + ".rerun";
+            std::string path = replayPath.empty() ? (getenv("VERIF_REPLAYS") ? std::string(getenv("VERIF_REPLAYS")) : verifDir + "/replays") + "/" + id + "-" + std::to_string(replayN++) + ".txt" : replayPath + ".rerun";
             if (replayPath.empty()) {
                 std::ofstream o(path);
                 o << "# property=" << id << " key=" << v.key << "\n# " << recEscape(v.what) << "\n" << v.replay;
